@@ -182,6 +182,33 @@ def load_findings(prop_id: str) -> dict[int, str]:
 
 
 # ----------------------------------------------------------------------------- driver
+class _Hang(Exception):
+    pass
+
+
+def _guarded(prop, pid, case, limit=90):
+    """run one case on the implementation; a case that does not finish within `limit` s of real time is reported as a
+    violation with that case as the replay (on the unchanged tree a case takes milliseconds)"""
+    import signal
+
+    def on_alarm(_s, _f):
+        raise _Hang()
+    old = signal.signal(signal.SIGALRM, on_alarm)
+    signal.alarm(limit)
+    try:
+        return prop.run_impl(case)
+    except _Hang:
+        os.makedirs(os.path.join(VERIF, "replays"), exist_ok=True)
+        path = os.path.join(VERIF, "replays", f"{pid}_hang.json")
+        json.dump({"property": pid, "kind": "violation", "note": f"the implementation did not finish this case within {limit} s (it takes milliseconds on the pinned tree)",
+                   "case": case, "replay_cmd": f"./check {pid} --replay {path}"}, open(path, "w"), indent=1)
+        print(f"VIOLATION property={pid} replay={path}")
+        sys.exit(1)
+    finally:
+        signal.alarm(0)
+        signal.signal(signal.SIGALRM, old)
+
+
 def run(prop, argv=None) -> int:
     import argparse
     ap = argparse.ArgumentParser()
@@ -225,7 +252,7 @@ def run(prop, argv=None) -> int:
     cases = corpus + gen
     stats: dict = {}
     t_impl = _real_time()
-    observed = [prop.run_impl(c) for c in cases]
+    observed = [_guarded(prop, pid, c) for c in cases]
     t_impl = _real_time() - t_impl
     t_coq = _real_time()
     terms = [prop.to_coq(c, o) for c, o in zip(cases, observed)]
